@@ -113,6 +113,7 @@ class Side:
         self.name = name
         self.log = []
         self.gen = None
+        self.counters = {}
 
 
 # ------------------------------------------------------------------------------------------- canonical forms
@@ -134,6 +135,12 @@ class Canon:
         if v is None or isinstance(v, (bool, int, float, str, bytes)):
             return v
         if isinstance(v, Sym):
+            import z3
+            if z3.is_const(v.t) and v.t.decl().kind() == z3.Z3_OP_UNINTERPRETED:
+                k = ("symconst", v.t.sexpr())        # fresh symbols are renamed by first occurrence, like tokens
+                if k not in self.ren:
+                    self.ren[k] = f"sym#{len(self.ren)}"
+                return self.ren[k]
             return ("sym", v.t.sexpr())
         if isinstance(v, tuple):
             if len(v) == 2 and v[0] == "$id":
@@ -182,6 +189,8 @@ class Canon:
             return ("hm", v.name, self.c(v.obj))
         if hasattr(v, "canon"):
             return v.canon(self)
+        if type(v).__name__ in ("_ListIter", "_LiveIter"):
+            return ("iter", v.i, len(v.items) if hasattr(v, "items") else len(v.seq))
         if callable(v) and getattr(v, "_pyvc_native", False):
             return ("native", getattr(v, "_canon_label", getattr(v, "__name__", "?")))
         return ("host", type(v).__name__, repr(v))
@@ -278,6 +287,10 @@ class Bisim:
         self.replay = replay
         self.cfg = cfg
         self.script = []
+        self.current = self.impl
+        self.shared_values = {}
+        self.send_factory = None      # (w, last yielded value) -> value to send (default: a fresh opaque token)
+        I.w.stubs["uuid.uuid4"] = lambda I_, a, k: self.fresh_shared("uuid", lambda n: Opaque(f"uuid{n}", {"token": "uuid", "isinstance_default": False}))
 
     def absgen_pair(self, name):
         """the 'same' abstract generator as seen by the implementation and by the reference"""
@@ -285,6 +298,8 @@ class Bisim:
 
     def info(self, why):
         d = self._info(why)
+        d["messages"] = {f"{k[0]}#{k[1]}": [v[1].command, getattr(v[1].obj, "name", None)]
+                         for k, v in self.oracle.table.items() if isinstance(v[1], MsgVal)}
         extra = getattr(self, "extra", None)
         if extra is not None:
             d.update(extra())
@@ -294,7 +309,19 @@ class Bisim:
         return {"replay": self.replay, "why": why, "script": list(self.script), "cfg": self.cfg,
                 "oracle": {f"{k[0]}#{k[1]}": v[0] for k, v in self.oracle.table.items()}}
 
+    def fresh_shared(self, kind, make):
+        """k-th value of `kind` requested on each side is the same object (uuids, time stamps ...): the two sides
+        correspond as long as they request such values in the same order"""
+        side = self.current
+        n = side.counters.get(kind, 0)
+        side.counters[kind] = n + 1
+        tab = self.shared_values.setdefault(kind, [])
+        while len(tab) <= n:
+            tab.append(make(len(tab)))
+        return tab[n]
+
     def outcome(self, side, tok):
+        self.current = side
         try:
             out = side.gen.resume(tok)
         except PyRaise as pr:
@@ -360,9 +387,12 @@ class Bisim:
                 seen.add(key)
             kind = w.choose(self.driver, "driver")
             if kind == "send":
-                v = Opaque(w.fresh("v"), {"token": "sent"})
+                if self.send_factory is not None:
+                    v, label = self.send_factory(w, oi[1])
+                else:
+                    v, label = Opaque(w.fresh("v"), {"token": "sent"}), "v"
                 tok = ("send", v)
-                self.script.append("send(v)")
+                self.script.append(f"send({label})")
             elif kind == "throw":
                 cls = self.throw_classes[0] if len(self.throw_classes) == 1 else w.choose(self.throw_classes, "thrown class")
                 e = Obj(cls, {"args": (), "__cause__": None}, label=w.fresh("thrown"))
